@@ -82,6 +82,27 @@ def str_method(it, recv, name, args, kwargs):
             conds.append(z3.PrefixOf(x.e, e) if name == 'startswith'
                          else z3.SuffixOf(x.e, e))
         return VBool(z3.Or(conds) if len(conds) != 1 else conds[0])
+    if name == 'replace' and len(args) == 2:
+        a = _arg_str(it, recv, args[0])
+        b = _arg_str(it, recv, args[1])
+        if is_concrete_str(recv) and is_concrete_str(a) and \
+                is_concrete_str(b):
+            return M.from_py(concrete_str(recv).replace(concrete_str(a),
+                                                        concrete_str(b)))
+        if not is_concrete_str(a) or len(concrete_str(a)) == 0:
+            raise Unsupported('str.replace of a symbolic / empty pattern')
+        # replace-all as an uninterpreted function with sound facts only
+        f = z3.Function('ReplaceAll', z3.StringSort(), z3.StringSort(),
+                        z3.StringSort(), z3.StringSort())
+        r = f(e, a.e, b.e)
+        ctx.assume(z3.Implies(z3.Not(z3.Contains(e, a.e)), r == e))
+        if is_concrete_str(b) and len(concrete_str(b)) > 0:
+            # a non-empty replacement never makes the string empty
+            ctx.assume((z3.Length(r) == 0) == (z3.Length(e) == 0))
+        if is_concrete_str(b) and len(concrete_str(b)) >= \
+                len(concrete_str(a)):
+            ctx.assume(z3.Length(r) >= z3.Length(e))
+        return VStr(r, recv.b)
     if name == 'strip' and not args:
         r = ctx.fresh_str('strip')
         a = ctx.fresh_str('lws')
